@@ -154,6 +154,13 @@ def run(ctx):
     for f in fails:
         ctx.failing_input(f[1], f[2], f[3][:4000], f[4][:1000])
     ctx.log("search: %d failing inputs" % len(fails))
+    ctx.notes["hygiene_oracles"] = (
+        "harness/c17/hygiene.go: every written stream and every typed / pass-through payload of the search is also read from a "
+        "sub-slice with 24 guard bytes (writes-beyond-len, depends-on-capacity, modifies-input), the caller then overwrites its "
+        "buffer (keeps-callers-buffer; not demanded of SEIData / pass-through messages, which hold the payload they were given), "
+        "a malformed relative is read in between (depends-on-earlier-calls, result-changed-by-later-calls); WriteSEIMessages with "
+        "guarded payload slices: payloads, guards and the rendering of every message unchanged by writing, second write and a "
+        "write into a plain one-byte-at-a-time io.Writer give the same bytes")
     if mism and not fails:
         by_id = {}
         for l in lines:
